@@ -10,7 +10,9 @@ TRUSTED = ["the tool is src/main.c's main() linked with src/ and lib/ of the wor
            "reference oracle (test_cli.C06): the expected tree is computed from the description the archive was generated "
            "from -- it never looks at the tool's or the model's output",
            "member data comes from real compressed members of the repository's archives, wrapped in headers made by the "
-           "independent encoder lhabuild.py"]
+           "independent encoder lhabuild.py",
+           "directed families (direct_cases): the tool built from the working tree (sanitizer build) run as uid 65534 in an empty "
+           "scratch directory; the resulting tree is read back with lstat / readlink / read by the check itself"]
 ASSUMPTIONS = ["well-formed archive = every directory entry followed contiguously by its contents (the generator's order)",
                "outside the guarantee, as the property says: dangerous links, and the time stamps of directories holding them; "
                "a directory that already exists keeps its own mode and time; as uid 65534 the kernel drops set-id bits on write",
@@ -67,6 +69,280 @@ def mac_cases(c06, pool, rnd, n):
     return lines
 
 
+# ---------------------------------------------------------------- directed families on the plain tool (audit round 4)
+#
+# What the generated trees above never contain: recorded directory permissions with the sticky or set-group-id bit, time
+# stamps from 2038 on (the jail's dump prints every mtime later than the driver's start as "now", so they are looked at
+# with lstat here), Mac members whose name fills the 63-byte name field of the MacBinary envelope or whose envelope was
+# written 13 or 14 hours from UTC, wildcard patterns that still have several '*' left when the name ends, 'i' together with 'w=DIR', the prompt answers a / s, members longer than
+# one 512-byte piece of the p command.  The archives are built from descriptions, the real tool (sanitizer build) extracts
+# them as uid 65534 into an empty directory, and the tree is read back with lstat: nothing of the model is involved.
+import shutil, stat as _stat
+from concurrent.futures import ThreadPoolExecutor
+
+LATE = [2 ** 31, 2 ** 31 + 86400 * 366, 0xF0000000, 2 ** 32 - 2]
+
+
+def _seq(n, k):
+    return bytes((i * k + 1) & 0xff for i in range(n))
+
+
+def direct_cases(pool, rnd, quick):
+    """[{name, arc, argv (after 'lha'), stdin, setup, spec, pre, flat, pats, keep}]; spec entries as in test_cli.C06"""
+    r = random.Random(rnd.random())
+    cases = []
+
+    def stored(n, k=7):
+        d = _seq(n, k)
+        return {"method": "-lh0-", "data": d, "length": len(d), "crc": T.crc16(d), "plain": d}
+
+    def small(maxlen):
+        while True:
+            sd = pool.small(r, maxlen=maxlen)
+            if not sd["method"].startswith("-pm") and sd["method"] != "-lk7-":     # (level-0 PMarc headers have no Unix area; -lk7- needs a LHark header)
+                return sd
+
+    def F(full, sd, perms=0o100644, ts=T.T_A, lv=2):
+        return T.file_member(r, sd, full, lv, T.U, perms, None, ts), ("file", full, sd["plain"], perms, ts)
+
+    def D(path, perms=0o40755, ts=T.T_B, lv=2):
+        return T.dir_member(r, path, lv, perms, None, ts), ("dir", path, perms, ts)
+
+    def add(name, items, argv, stdin=b"", setup=(), pre=b"", flat=False, pats=(), keep=()):
+        cases.append({"name": name, "arc": T.archive([m for m, _ in items]), "argv": list(argv) + list(pats), "stdin": stdin, "setup": list(setup),
+                      "spec": [e for _, e in items], "pre": pre, "flat": flat, "pats": list(pats), "keep": set(keep)})
+
+    # 1. sticky / set-group-id directories (and a sticky file), as /tmp-like and shared directories are archived
+    for lv in (0, 1, 2, 3):
+        for cmd in ([b"x", b"xw=o", b"xq2"] if not quick else [r.choice([b"x", b"xw=o", b"xq2", b"e"])]):
+            items = [D(b"tmp/", 0o41777, T.T_A, lv), F(b"tmp/a", stored(9), 0o100600, T.T_B, lv), D(b"tmp/sh/", 0o42775, T.T_C, lv),
+                     F(b"tmp/sh/b", small(200), 0o100664, T.T_A, lv), D(b"tmp/sh/k/", 0o43770, T.T_A, lv),
+                     D(b"st/", 0o41755, 1234567890, lv), F(b"c", stored(3), 0o101644, T.T_B, max(lv, 1))]
+            add("special-bits", items, [cmd], pre=(b"o/" if b"w" in cmd else b""))
+    # 2. time stamps from 2038 on
+    for lv in (0, 1, 2, 3):
+        ts = r.sample(LATE, 3)
+        items = [D(b"late/", 0o40755, ts[0], lv), F(b"late/f", small(100), 0o100644, ts[1], lv), F(b"g", stored(5), None if lv else 0o100644, ts[2], lv)]
+        add("late-stamps", items, [r.choice([b"x", b"e", b"xf", b"xi"])], flat=False)
+        if cases[-1]["argv"][0] == b"xi":
+            cases[-1]["flat"] = True
+    # 3. members of Mac archives whose name is as long as the envelope's name field allows (63), and longer
+    for n in (31, 62, 63, 64, 100):
+        for lv in ((1, 2, 3) if not quick else (r.choice([1, 2, 3]),)):
+            nm = (b"N%d-" % n + b"m" * 100)[:n]
+            dfork = _seq(r.choice([1, 200]), 5)
+            body = dfork + bytes(-len(dfork) % 128)
+            data = T.macbinary_header(nm, len(dfork), 0, T.T_A) + body
+            if n > 63:            # the name cannot be in an envelope: such a member is a plain file
+                data = _seq(300, 11)
+                plain = data
+            else:
+                plain = dfork
+            m = T.Member(T.header(lv, b"-lh0-", len(data), len(data), T.crc16(data), nm, T.MAC, None, None, T.T_A, inname=False), data, "file")
+            for cmd in (b"x", b"p"):
+                add("mac-name-%d" % n, [(m, ("file", nm, plain, None, T.T_A))], [cmd])
+    # 3b. envelopes written in time zones up to 14 hours from UTC (the envelope's date is local time, the header's is UTC)
+    for tz in (0, 13 * 3600, -13 * 3600, 14 * 3600, -14 * 3600, 12 * 3600 + 2700):
+        nm = b"tz%d" % (tz // 900)
+        dfork = _seq(r.choice([1, 77, 300]), 5)
+        data = T.macbinary_header(nm, len(dfork), 0, T.T_A, tz=tz) + dfork + bytes(-len(dfork) % 128)
+        m = T.Member(T.header(r.choice([1, 2, 3]), b"-lh0-", len(data), len(data), T.crc16(data), nm, T.MAC, None, None, T.T_A), data, "file")
+        add("mac-zone", [(m, ("file", nm, dfork, None, T.T_A))], [r.choice([b"x", b"p", b"e"])])
+    # 4. patterns that still have several '*' left when the name ends
+    names = [b"a", b"xa", b"ab", b"a.txt", b"d/a", b"d/xa", b"d/c", b"q"]
+    for pats in ([b"a**"], [b"**a**"], [b"*a**"], [b"a***"], [b"?**"], [b"d/**"], [b"d/a**", b"q**"], [b"**"], [b"*?**"], [b"a*?**"], [b"x?**", b"nomatch**"]):
+        items = [D(b"d/")] + [F(nm, stored(4 + i)) for i, nm in enumerate(names) if nm.startswith(b"d/")] + \
+                [F(nm, stored(4 + i)) for i, nm in enumerate(names) if not nm.startswith(b"d/")]
+        for cmd in ((b"x", b"p") if not quick else (r.choice([b"x", b"p"]),)):
+            add("trailing-stars", items, [cmd], pats=pats)
+    # 5. 'i' together with 'w=DIR'
+    for cmd, pre in ((b"xiw=o", b"o/"), (b"eiw=o/p", b"o/p/"), (b"xifw=new dir", b"new dir/"), (b"xiq2w=o/", b"o/")):
+        items = [D(b"d/"), F(b"d/in", stored(9)), D(b"d/e/", 0o40700), F(b"d/e/deep", small(100)), F(b"top", stored(2))]
+        add("flat-into-dir", items, [cmd], pre=pre, flat=True)
+    # 6. prompt answers a(ll) and s(kip): the policy they put in force holds for the rest of the archive
+    fl = [b"f1", b"d/f2", b"f3", b"d/f4", b"f5"]
+    for ans, kept in ((b"a\n", []), (b"A\n", []), (b"s\n", fl), (b"S\n", fl), (b"n\na\n", fl[:1]), (b"y\ns\n", fl[1:]), (b"n\ny\nS\n", [fl[0]] + fl[2:]),
+                      (b"\nall\n", fl[:1]), (b"x\nskip\n", fl)):
+        items = [F(b"f1", stored(3)), D(b"d/"), F(b"d/f2", stored(4)), F(b"f3", stored(5)), F(b"d/f4", stored(6)), F(b"f5", stored(7))]
+        setup = [("mkdir", b"d", 0o755)] + [("file", f, b"OLD", 0o644) for f in fl]
+        add("answers-all-skip", items, [r.choice([b"x", b"e"])], stdin=ans, setup=setup, keep=kept)
+    # 7. members longer than one piece of the p command / of the extraction loop
+    for ln in (511, 512, 513, 1024, 1025, 3000):
+        big = [sd for sd in pool.full if sd["length"] >= ln and sd["method"] != "-lk7-"]
+        sd = pool.cut(r.choice(big), ln) if big else stored(ln)
+        items = [F(b"big%d" % ln, sd), F(b"st%d" % ln, stored(ln, 3))]
+        for cmd in (b"p", b"x"):
+            add("long-members", items, [cmd])
+    return cases
+
+
+def snapshot(root):
+    tree = {}
+    rb = root.encode()
+    stack = [rb]
+    while stack:
+        d = stack.pop()
+        for nm in os.listdir(d):
+            p = os.path.join(d, nm)
+            st = os.lstat(p)
+            rel = p[len(rb) + 1:]
+            if _stat.S_ISLNK(st.st_mode):
+                tree[rel] = ("L", None, None, os.readlink(p))
+            elif _stat.S_ISDIR(st.st_mode):
+                tree[rel] = ("D", st.st_mode & 0o7777, int(st.st_mtime), None)
+                stack.append(p)
+            else:
+                try:
+                    data = open(p, "rb").read()
+                except OSError:
+                    data = None
+                tree[rel] = ("F", st.st_mode & 0o7777, int(st.st_mtime), data)
+    return tree
+
+
+def direct_check(c, rc, out, tree):
+    """deviations of the extracted tree / the p output from the description: [(what, detail)]"""
+    bad = []
+    res = [TC.glob_re(p) for p in c["pats"]]
+    sel = [e for e in c["spec"] if not res or any(r_.match(e[1]) for r_ in res)]
+    if rc != 0:
+        bad.append(("exit status %d" % rc, ""))
+    cmd = c["argv"][0]
+    if cmd[:1] == b"p":
+        exp = b"".join(b"::::::::\n" + TC.safe(e[1]) + b"\n::::::::\n" + e[2] for e in sel if e[0] == "file")
+        if out != exp:
+            k = next((j for j, (x, y) in enumerate(zip(out, exp)) if x != y), min(len(out), len(exp)))
+            bad.append(("p: stdout is not banner + contents", "first difference at byte %d of %d (expected %d bytes)" % (k, len(out), len(exp))))
+        if tree:
+            bad.append(("p created an object", repr(sorted(tree)[0])))
+        return bad
+    pre, flat = c["pre"], c["flat"]
+
+    def loc(full):
+        return pre + (full.rstrip(b"/").split(b"/")[-1] if flat else full.rstrip(b"/"))
+    allowed, dirs_ok = set(), set()
+    for e in sel:
+        if flat and e[0] == "dir":
+            continue
+        allowed.add(loc(e[1]))
+    for op in c["setup"]:
+        allowed.add(op[1])
+    for a_ in allowed:
+        parts = a_.split(b"/")
+        for i in range(1, len(parts)):
+            dirs_ok.add(b"/".join(parts[:i]))
+    for k_, v in sorted(tree.items()):
+        if k_ not in allowed and not (v[0] == "D" and k_ in dirs_ok):
+            bad.append(("an object that no selected member accounts for", "%s %r" % (v[0], k_)))
+            break
+    for e in c["spec"]:
+        if e not in sel and not flat and loc(e[1]) in tree and not any(op[1] == e[1].rstrip(b"/") for op in c["setup"]) \
+                and not any(s_[1].startswith(e[1]) for s_ in sel if e[0] == "dir"):
+            bad.append(("a member that no pattern selects was extracted", repr(e[1])))
+    for e in sel:
+        kind, full = e[0], e[1]
+        ent = tree.get(loc(full))
+        if kind == "file":
+            if full in c["keep"]:
+                if ent is None or ent[0] != "F" or ent[3] != b"OLD":
+                    bad.append(("overwrite: the policy in force keeps the existing file, but it changed", repr(full)))
+                continue
+            if ent is None or ent[0] != "F":
+                bad.append(("file missing", repr(full)))
+            elif ent[3] != e[2]:
+                bad.append(("file contents differ", "%r: %d bytes, archived %d" % (full, len(ent[3] or b""), len(e[2]))))
+            elif e[4] and ent[2] != e[4]:
+                bad.append(("file mtime wrong", "%r: %d, recorded %d" % (full, ent[2], e[4])))
+            elif e[3] is not None and ent[1] != e[3] & 0o7777:
+                bad.append(("file permissions differ", "%r: %o, recorded %o" % (full, ent[1], e[3] & 0o7777)))
+        elif kind == "dir" and not flat:
+            if any(op[0] == "mkdir" and op[1] == full.rstrip(b"/") for op in c["setup"]):
+                continue                      # (an existing directory is left as it is)
+            if ent is None or ent[0] != "D":
+                bad.append(("directory missing", repr(full)))
+            elif e[2] is not None and ent[1] != e[2] & 0o7777:
+                bad.append(("directory permissions differ", "%r: %o, recorded %o" % (full, ent[1], e[2] & 0o7777)))
+            elif e[3] and ent[2] != e[3]:
+                bad.append(("directory mtime wrong", "%r: %d, recorded %d" % (full, ent[2], e[3])))
+    return bad
+
+
+def direct_part(cb, pool, rnd, quick, viol, dist, only=None):
+    """runs the directed families; appends violations; returns (invocations, objects checked)"""
+    lha = common.build_lha(cb)
+    scratch = common.scratch_dir("c06d")
+    try:
+        cases = direct_cases(pool, rnd, quick) if only is None else only
+
+        def one2(kc):       # (lstat must see the modes the tool left: snapshot before the clean-up chmod)
+            k, c = kc
+            top = os.path.join(scratch, "d%d" % k)
+            root = os.path.join(top, "root")
+            os.makedirs(root)
+            open(os.path.join(top, "a.lzh"), "wb").write(c["arc"])
+            for op in c["setup"]:
+                pth = os.path.join(root.encode(), op[1])
+                if op[0] == "mkdir":
+                    os.mkdir(pth, op[2])
+                elif op[0] == "file":
+                    open(pth, "wb").write(op[2])
+                    os.chmod(pth, op[3])
+                    os.utime(pth, (1111111111, 1111111111))
+            if os.geteuid() == 0:
+                for dp, dn, fn in os.walk(root):
+                    for x in [dp] + [os.path.join(dp, f) for f in fn]:
+                        os.lchown(x, 65534, 65534)
+            rc, out, err = common.run_lha(lha, [c["argv"][0], b"../a.lzh"] + c["argv"][1:], cwd=root, as_nobody=True, stdin=c["stdin"],
+                                          now=1500000000)
+            tree = snapshot(root)
+            if os.geteuid() == 0:
+                common.sh(["chmod", "-R", "u+rwx", top])
+            shutil.rmtree(top, ignore_errors=True)
+            return rc, out, err, tree
+        with ThreadPoolExecutor(max_workers=common.NCPU) as ex:
+            results = list(ex.map(one2, enumerate(cases)))
+        objs = 0
+        seen = set()
+        for c, (rc, out, err, tree) in zip(cases, results):
+            dist["direct:" + c["name"].split("-")[0]] += 1
+            ab = common.abnormal(rc, err)
+            if ab:
+                viol.append({"property": PID, "kind": "tool-abnormal-termination", "family": c["name"], "observed": ab, "direct": _enc_case(c), "sig": "crash"})
+                continue
+            objs += len(c["spec"])
+            for what, detail in direct_check(c, rc, out, tree)[:1]:
+                if (c["name"], what) in seen:
+                    continue
+                seen.add((c["name"], what))
+                viol.append({"property": PID, "kind": "extracted-tree-differs-from-the-archive", "what": what, "detail": detail, "family": c["name"],
+                             "argv": ["lha"] + [x.decode("latin-1") for x in [c["argv"][0], b"../a.lzh"] + c["argv"][1:]],
+                             "stdin": c["stdin"].decode("latin-1"), "direct": _enc_case(c), "sig": "tree:" + what.split(":")[0][:40]})
+        return len(cases), objs
+    finally:
+        if os.geteuid() == 0:
+            common.sh(["chmod", "-R", "u+rwx", scratch])
+        shutil.rmtree(scratch, ignore_errors=True)
+
+
+def _enc_case(c):
+    enc = lambda x: x.hex() if isinstance(x, (bytes, bytearray)) else x
+    return {"name": c["name"], "arc": c["arc"].hex(), "argv": [a.hex() for a in c["argv"]], "stdin": c["stdin"].hex(),
+            "setup": [[enc(y) for y in op] for op in c["setup"]], "spec": [[enc(y) for y in e] for e in c["spec"]], "pre": c["pre"].hex(),
+            "flat": c["flat"], "pats": [p_.hex() for p_ in c["pats"]], "keep": sorted(k.hex() for k in c["keep"])}
+
+
+def _dec_case(d):
+    def spec(e):
+        if e[0] == "file":
+            return ("file", bytes.fromhex(e[1]), bytes.fromhex(e[2]), e[3], e[4])
+        return ("dir", bytes.fromhex(e[1]), e[2], e[3])
+    def op(o):
+        return (o[0], bytes.fromhex(o[1]), o[2]) if o[0] == "mkdir" else (o[0], bytes.fromhex(o[1]), bytes.fromhex(o[2]), o[3])
+    return {"name": d["name"], "arc": bytes.fromhex(d["arc"]), "argv": [bytes.fromhex(a) for a in d["argv"]], "stdin": bytes.fromhex(d["stdin"]),
+            "setup": [op(o) for o in d["setup"]], "spec": [spec(e) for e in d["spec"]], "pre": bytes.fromhex(d["pre"]), "flat": d["flat"],
+            "pats": [bytes.fromhex(p_) for p_ in d["pats"]], "keep": set(bytes.fromhex(k) for k in d["keep"])}
+
+
 def run(ctx):
     rnd = random.Random(ctx.seed * 104729 + 6)
     cb = CBuild(PID)
@@ -106,6 +382,10 @@ def run(ctx):
                     mism.append({"case": l[:8000], "c": cc[:600], "model": mm[:600]})
                 if name == "wellformed":
                     c06.look(l, c)
+        n_direct, objs_direct = direct_part(cb, pool, rnd, q, viol, dist)
+        total += n_direct
+        c06.n += n_direct
+        c06.checked += objs_direct
         for sig, (cnt, l, detail) in c06.bad.items():
             t = l.split(" ")
             v_, spec_, pats_, pre_, cmd_, stdin_, setup_ = c06.meta[l]
@@ -115,7 +395,7 @@ def run(ctx):
                                          "pre": pre_.hex(), "cmd": cmd_.hex(), "stdin_hex": stdin_.hex(), "setup": setup_},
                          "case": l, "argv": [x.decode("latin-1") for x in TC.case_argv(l)],
                          "stdin": common.unhex(t[6]).decode("latin-1")[:80], "sig": "tree:" + sig.split(":")[0][:40]})
-        viol.sort(key=lambda v: len(v["case"]))
+        viol.sort(key=lambda v: len(v["case"]) if "case" in v else len(v["direct"]["arc"]) // 2)
         cov = {"evaluations": total, "distinct_nontrivial": c06.checked,
                "rule": "wellformed: generated trees (nested directories up to depth 3, files of every compression method with "
                        "contents harvested from real members, recorded modes incl. 0000/0222/0444/0555-style read-only files and "
@@ -124,7 +404,10 @@ def run(ctx):
                        "with 1-3 wildcard patterns / p / p with patterns / existing files with prompt answers y n Y N empty, f, q1; "
                        "expected tree, p output and selection computed from the generating description (%d invocations, %d objects "
                        "checked: contents, mtime, mode, link target, no object unaccounted for).  order/options/wildcards/prompts/"
-                       "readonly: model of the tool = real tool on exit status, stdout, stderr and the whole tree.  non-trivial = "
+                       "readonly: model of the tool = real tool on exit status, stdout, stderr and the whole tree.  directed families on the "
+                       "plain tool, tree read back with lstat: sticky / set-group-id directories, time stamps from 2038 on, Mac members with "
+                       "31..100-byte names and envelopes from time zones up to 14 h from UTC, patterns ending in several '*', i with w=DIR, prompt answers a / s, members of 511..3000 bytes "
+                       "through x and p.  non-trivial = "
                        "object checked against the description" % (c06.n, c06.checked),
                "distribution": dict(dist), "samples": [fam["wellformed"][0][:500], fam["options"][0][:300]]}
         return {"violations": viol[:10], "mismatches": mism[:10], "coverage": cov,
@@ -137,6 +420,14 @@ def replay(payload):
     cb = CBuild(PID)
     try:
         drv, rdrv = build(cb)
+        if "direct" in payload:
+            c = _dec_case(payload["direct"])
+            v, d_ = [], collections.Counter()
+            direct_part(cb, None, None, True, v, d_, only=[c])
+            for x in v:
+                print("deviation:", x.get("what") or x.get("observed"), x.get("detail"))
+            print("REPRODUCED" if v else "not reproduced")
+            return 1 if v else 0
         l = payload["case"]
         o = TC.normalise_c(l, common.run_lines_parallel([drv], [l])[0])
         print("argv:", payload.get("argv"), "recorded:", payload.get("what"), payload.get("detail"))
